@@ -45,7 +45,7 @@
     apply_transformer_leaves_origins apply_transformer_concatenates history_mixed_keeps_chains
     apply_transformer_runs_in_sequence attr_callable_changes_only_selected substitute_map_are_map_text
     emptytag_wellnested whitespace_filter_wellnested doctype_inserter_wellnested
-    ns_flattener_wellnested_partial ns_flattener_wellnested_ns_partial
+    ns_flattener_wellnested ns_flattener_wellnested_partial ns_flattener_wellnested_ns_partial
 -/
 import Genshi.Lemmas.TfSegs2
 import Genshi.Lemmas.TfChains
@@ -59,6 +59,7 @@ import Genshi.Lemmas.TfTraceInv
 import Genshi.Lemmas.TfTraceSub
 import Genshi.Lemmas.TfDerive
 import Genshi.Lemmas.TfSerial
+import Genshi.Lemmas.TfSerialNs
 namespace Genshi.Props.C20
 open Genshi Genshi.Tf
 
@@ -733,14 +734,27 @@ theorem doctype_inserter_wellnested (d : Str × Option Str × Option Str) (es : 
     WellNested (toStreamF (docTypeInsert d es)) ↔ WellNested (toStreamF es) :=
   doctype_inserter_wellnested_iff d es
 
+open Genshi.Tf.Serial in
+/-- NamespaceFlattener, full strength, on C02's total model of the filter (`Genshi.Xml.flatten`,
+    `Model/XmlFlatten.lean`: genshi/output.py after the repair "NamespaceFlattener keeps track of which
+    prefix is bound to which URI"; any prefix table, any number of namespaces, START_NS / END_NS events
+    anywhere): the name written for an END is the name written for its START (the filter keeps the open
+    elements on a stack), so every well-nested stream comes out well nested — alone, and behind the
+    EmptyTagFilter on every well-nested stream of the shared vocabulary. -/
+theorem ns_flattener_wellnested (pref : List (Str × Str)) :
+    (∀ s : List Genshi.Xml.XEv, WellNested (toStreamX s) → WellNested (toStreamXF (Genshi.Xml.flatten pref s))) ∧
+    (∀ s : Stream, WellNested s → WellNested (toStreamXF (Genshi.Xml.flatten pref (Genshi.Xml.emptyTag s)))) :=
+  ⟨fun s h => Genshi.Tf.Serial.ns_flattener_wellnested pref s h,
+   fun s h => emptytag_ns_flattener_wellnested pref s h⟩
+
 /-
-  NamespaceFlattener.  Full statement: `WellNested (toStreamQ es) → flatten c st es = some out →
-  WellNested (toStreamF out)`.  It is FALSE for the filter as it is: the prefixed name written for an
-  END is computed from the namespace bindings in force when the END arrives, so START_NS/END_NS events
-  placed inside an element, or a prefix re-bound between START and END, give an END named differently
-  from its START.  Proved (`_partial`): on the domains of the owners' theorems (`filtered_forest`:
-  flattenings of namespace-free forests; `filtered_forestU`: all elements in one namespace `u`), the
-  whole filter chain EmptyTagFilter → NamespaceFlattener delivers a well-nested stream.
+  The same for C08/C09's model of the filter chain (`Genshi.Output.filtered`, whose flattener
+  `Output.flatten` is defined on a "lite" domain only and answers `none` elsewhere).  Full statement:
+  `WellNested s → filtered m o s = some out → WellNested (toStreamF out)` for every stream.  Proved
+  (`_partial`): on the domains of the owners' theorems (`filtered_forest`: flattenings of namespace-free
+  forests; `filtered_forestU`: all elements in one namespace `u`; no cache, no whitespace filter, no
+  doctype option) the chain EmptyTagFilter → NamespaceFlattener DELIVERS an output, and it is well nested.
+  Missing: the other streams of the lite domain (explicit START_NS('', u) events) and `cache = true`.
 -/
 open Genshi.Output Genshi.Tf.Serial in
 theorem ns_flattener_wellnested_partial (m : Method) (dropd : Bool) (ns : List Node)
